@@ -1,6 +1,6 @@
 (* Extraction of the C03 models. ExtrOcamlBasic only. *)
 Require Extraction.
 Require Import ExtrOcamlBasic.
-From Atlas Require Import Base.Bytes Diff.Schema Sqlite.PlanModel Sqlite.ExportModel Sqlite.ExportPrint Hcl.SpecModel.
+From Atlas Require Import Base.Bytes Diff.Schema Sqlite.PlanModel Sqlite.ExportDump Sqlite.ExportModel Sqlite.ExportPrint Hcl.SpecModel.
 Extraction Language OCaml.
-Extraction "model.ml" recover scan_expr fill_checks hcl_roundtrip print_table print_index idx_exprs expr_last_index.
+Extraction "model.ml" recover scan_expr fill_checks hcl_roundtrip print_table print_index idx_exprs expr_last_index dump_creates.
